@@ -300,9 +300,15 @@ def _bad_op(rng, sh, k, corrupt_fn=None):
                          "G\t%s\t%s+\ta b-\t10\t*" % (sh.fresh(rng), x),
                          "E\t%s\t%s+\t%s\t0\t5\t5\t10$\t*" % (sh.fresh(rng), x, y),
                          "G\t%s\t%s+\t%s\t10\t*" % (sh.fresh(rng), x, y),
+                         # the mentioned identifier itself defined as a group one of whose items is '*'
+                         "O\t%s\t%s+ *+" % (x, rng.choice(segs) if segs else y),
+                         "U\t%s\t%s *" % (x, rng.choice(segs) if segs else y),
                          "G\t%s\t%s-\t%s\t*\t*" % (sh.fresh(rng), x, rng.choice(segs) if segs else y),
                          "E\t%s\t%s+\t%s-\tx\t5\t5\t10$\t*" % (y, x, sh.fresh(rng))])
-        return kind, [{"op": "add", "line": g, "as": "str"}, {"op": "add", "line": ln, "as": rng.choice(["str", "obj"])}]
+        ops_ = [{"op": "add", "line": g, "as": "str"}, {"op": "add", "line": ln, "as": rng.choice(["str", "obj"])}]
+        if ln[0] in "OU" and segs:
+            ops_.append({"op": "add", "line": "%s\t%s\t%s%s" % (ln[0], x, rng.choice(segs), "+" if ln[0] == "O" else ""), "as": "str"})
+        return kind, ops_
     if kind == "set_field_none" and (sh.anon or ids):
         if v == "gfa1":
             fld = rng.choice(["from_segment", "overlap", "segment_names", "sequence", "name", "pos", "ID"])
